@@ -154,6 +154,9 @@ func AllocLimit(n int) {
 	allocLim = int64(n)
 }
 
+// Prefer is a soft constraint used only when the solver picks the model of a
+// counterexample (to make native replay likely to follow the same path).
+func Prefer(c bool)      {}
 func MaxLen(n int)       {}
 func Unwind(n int)       {}
 func MapOrderNondet()    {}
